@@ -71,8 +71,9 @@ def sim(case):
                     rec = ("S", b[1])
                 else:
                     rec = ("P", b)
-                if arg is None and (len(out) > 0):
-                    # the first observation of the *current* track: only known to the oracle when attached
+                if arg is None:
+                    # the library chooses the base (the first observation, today): the property does not say which point,
+                    # so the oracle does not know it; only a return without argument (the recorded base) is attached
                     rec = ("P", "first")
                 kind = "N"
             elif kind == "E":
@@ -81,7 +82,7 @@ def sim(case):
                     out.append(("illegal", "int base for an ECEF track"))
                     break
                 rec = ("P", b)
-                if arg is None and (len(out) > 0):
+                if arg is None:
                     rec = ("P", "first")
                 kind = "N"
             else:
@@ -123,6 +124,10 @@ class P(Prop):
         (M, "TV.C14.track_enu_if_needed", "Track.toENUCoordsIfNeeded on a Geo track is toENUCoords() with the first observation as base; any other track is left alone"),
         (M, "TV.C14.track_enu_rebinds_fresh", "after Track.toENUCoords the positions and Track.base are new objects (the recorded base is a copy, never the caller's object); older objects untouched"),
         (M, "TV.C14.track_round_trip_survives_update", "Geo track -> ENU(b) -> caller updates any older object (b included) -> toGeoCoords(): succeeds, positions are their Geo->ECEF->Geo images, Track.base is b as it was"),
+        (M, "TV.C14.track_round_trip_recorded_base", "returns without argument (through Track.base) for a base of either class: as coded, positions go forth with the base and back with the record; exact whenever the record denotes the point used (geoToEcef(b.toGeo) = b.toEcef), and then the recorded base has local coordinates (0,0,0)"),
+        (M, "TV.C14.recorded_base_denotes_base_used", "that hypothesis holds for every GeoCoords base (any trig functions) and, over the reals, for an ECEFCoords base on the ellipsoid"),
+        (M, "TV.C14.track_default_base", "Track.toENUCoords() without argument as coded: first observation at (0,0,0), record = its position (Geo track) / its closed-form inverse (ECEF track); returns without argument exact (ECEF track: when the inverse is exact at the first position)"),
+        (M, "TV.C14.track_default_round_trip_survives_update", "Geo track -> toENUCoords() (base chosen by the library) -> caller updates any older object (the first position object included) -> toGeoCoords(): succeeds, positions are their Geo->ECEF->Geo images, Track.base is the first position as it was"),
     ]
     partial = [
         "geo_ecef_geo_partial / geo_enu_geo_partial: exact round trip proved for h = 0. For h != 0 (geo_ecef_geo_residual, geo_enu_geo_residual) the "
@@ -136,8 +141,11 @@ class P(Prop):
         "implementation, valid for every longitude and base by geo_ecef_geo_residual / geo_enu_geo_residual",
         "Lambert-93 inverse then forward (XY -> Geo -> XY) within 1 mm: follows over the reals from lambert_round_trip only for XY in the image of the forward map; sampled by the transfer check",
         "IEEE rounding of every formula (theorems are over the reals): transfer only",
-        "whole-track round trip through the recorded base when the base was given as ECEFCoords: false as an exact statement (the recorded "
-        "base is the closed-form inverse of it) and beyond 1e-9 deg next to the poles: the known finding",
+        "whole-track round trip through the recorded base when the base is an ECEFCoords (explicit, or the first position of an ECEF track "
+        "converted without argument) OFF the ellipsoid: proved exact when the record denotes the point used (track_round_trip_recorded_base: every "
+        "GeoCoords base, an ECEFCoords base on the ellipsoid); otherwise the code returns enuToEcef(ecefToEnu(p, b), b.toGeoCoords()) (same theorem), "
+        "off by Bowring's residual at the base, beyond 1e-9 deg next to the poles: the known finding; a bound on that shift needs the analytic "
+        "bound of the first open statement",
     ]
     modelled = ("obs_coords.py: GeoCoords.toECEFCoords/toENUCoords (STANDARD_PROJ == 1 branch)/toProjCoords, ECEFCoords.toGeoCoords/"
                 "toENUCoords, ENUCoords.toECEFCoords/toGeoCoords/toENUCoords, _proj/_unproj dispatch, _projToLambert93, "
@@ -160,7 +168,9 @@ class P(Prop):
             "point conversions with bases given as objects, as track positions, as Track.base, as the point itself / tracks built on "
             "the caller's objects / whole-track conversions, with templates for: one base object serving two places, a base updated "
             "between the two legs of a round trip, a first track warming a base that a second one uses after an update, ENU tracks built "
-            "on the caller's base object, a base that is a position of the track, copies; 6% end with a refused call; resid: the "
+            "on the caller's base object, a base that is a position of the track, copies; 6% end with a refused call; a whole-track "
+            "conversion that leaves the choice of the base to the library (toENUCoords() without argument, toENUCoordsIfNeeded()) is judged "
+            "against the base the track has on record after the call, never against an assumed default; resid: the "
             "(lat, h) grid of the Geo->ECEF->Geo residual. non-trivial = point differs from the base (pt), any Lambert point, any track "
             "history with at least one legal conversion, any hist with a conversion that is not refused, any resid block")
 
@@ -705,9 +715,11 @@ class P(Prop):
         off by up to 1.4e-6 m (Bowring one-step truncation, grows as h^2) for heights up to 10 km, every position converted back with the recorded base is shifted by
         that much, and for a position within 0.6 degree of a pole this is more than 1e-9 degree of longitude (never more
         than 1e-8 degree; latitude and height stay within the bounds)."""
+        import re
+        if case.get("kind") == "hist" and msg:
+            return self.FINDING_CLASS if H.finding_recorded_base(case, msg) else None
         if case.get("kind") != "track" or case["srid"] == "N" or not msg:
             return None
-        import re
         m = re.search(r"angles differ by \(([-+.\de]+), ([-+.\de]+)\) deg$", msg)
         if not m or float(m.group(1)) > 1e-8 or float(m.group(2)) > TOL_DEG:
             return None
